@@ -33,9 +33,14 @@ func floatClass(text string) string {
 // RoundTrip checks ParseSource(FormatValue(v)) == v and the text fix-point.
 // exact=false: only the text fix-point is required (narrow numeric widths).
 func RoundTrip(c *core.Ctx, v any, exact bool, label string) bool {
+	cv, _ := Canon(v)
+	return roundTrip(c, v, cv, exact, label)
+}
+
+// roundTrip: cv is the canonical tree the parsed value must have when exact is set.
+func roundTrip(c *core.Ctx, v any, cv string, exact bool, label string) bool {
 	var text1, text2 string
 	var parsed any
-	cv, _ := Canon(v)
 	cs := map[string]any{"value": clip(cv, 1500), "generator": label}
 	if pan, msg := try(func() { text1 = mod.FormatValue(v) }); pan {
 		c.Violation("roundtrip/format-panicked", "FormatValue panicked: "+clip(msg, 300), cs)
@@ -194,17 +199,58 @@ func RunC10Narrow(c *core.Ctx) {
 		case 6:
 			items[i] = uint32(r.Uint64())
 		case 7:
-			items[i] = float32(genFloat(r) / 1e270)
+			if r.Chance(1, 2) {
+				items[i] = float32(genFloat(r) / 1e270)
+			} else {
+				// fractions that are not short decimals in double precision
+				items[i] = float32(r.Intn(2001)-1000) / float32(r.Range(1, 999))
+			}
 		default:
-			items[i] = complex64(complex(float32(r.Intn(100))/8, float32(r.Intn(100))/4))
+			if r.Chance(1, 2) {
+				items[i] = complex64(complex(float32(r.Intn(100))/8, float32(r.Intn(100))/4))
+			} else {
+				items[i] = complex64(complex(float32(r.Intn(2001)-1000)/float32(r.Range(1, 999)), float32(r.Intn(2001)-1000)/float32(r.Range(1, 99))))
+			}
 		}
 	}
 	kind := []string{"Array", "List", "Stack", "Queue"}[r.Intn(4)]
 	v := BuildKind(r, kind, items)
-	if RoundTrip(c, v, false, "narrow widths in "+kind) {
+	// the parser yields the widest type of each class; the numeric value must be exactly the
+	// one that was formatted, so the parsed tree must be that of the widened items
+	wide := make([]any, n)
+	for i, x := range items {
+		wide[i] = widen(x)
+	}
+	want, _ := Canon(BuildKind(r.Fork(), kind, wide))
+	if roundTrip(c, v, want, true, "narrow widths in "+kind) {
 		c.Cover("narrow")
 		c.Distinct(core.HashStr(fmt.Sprintf("%s%#v", kind, items)))
 	}
+}
+
+// widen converts a narrow numeric value to the type the parser yields for its class.
+func widen(x any) any {
+	switch t := x.(type) {
+	case int:
+		return int64(t)
+	case int8:
+		return int64(t)
+	case int16:
+		return int64(t)
+	case uint:
+		return uint64(t)
+	case uint8:
+		return uint64(t)
+	case uint16:
+		return uint64(t)
+	case uint32:
+		return uint64(t)
+	case float32:
+		return float64(t)
+	case complex64:
+		return complex128(t)
+	}
+	return x
 }
 
 // ---- totality: self-containing values and nests deeper than the limit ----
@@ -369,6 +415,12 @@ func RunC10Purity(c *core.Ctx) {
 		cv, multiMap := Canon(v)
 		useFormatter := r.Bool()
 		var got, want string
+		if r.Chance(1, 3) {
+			// a rejected parse on the same notation must not leave anything behind either
+			bad := []string{"[1 2](List)", "](List", "[1: ](Catalog)", "[1, 2", "[\"a\": 1, 2](Catalog)", "[1, 2](Nope)", "[[1, 2](List)"}[r.Intn(7)]
+			rejected, _ := try(func() { shared.ParseSource(bad) })
+			hist = append(hist, fmt.Sprintf("ParseSource(%q) rejected=%v", bad, rejected))
+		}
 		pan, msg := try(func() {
 			if useFormatter {
 				got = sharedF.FormatValue(v)
@@ -397,6 +449,20 @@ func RunC10Purity(c *core.Ctx) {
 			c.Violation("purity/depends-on-earlier-calls", "the text differs from what a fresh notation returns for the same value", cs)
 			return
 		}
+		// the round trip holds on this much-used notation as well
+		var parsed any
+		if pan3, msg3 := try(func() { parsed = shared.ParseSource(got) }); pan3 {
+			cs["text"] = clip(got, 400)
+			c.Violation("purity/roundtrip-rejected-after-earlier-calls", "ParseSource on a notation with earlier (also rejected) calls rejects the text FormatValue produced: "+clip(strings.SplitN(msg3, "\n", 2)[0], 200), cs)
+			return
+		}
+		if cp, _ := Canon(parsed); cp != cv {
+			cs["text"] = clip(got, 400)
+			cs["parsed"] = clip(cp, 400)
+			c.Violation("purity/roundtrip-differs-after-earlier-calls", "on a notation with earlier calls the parsed value differs from the formatted one", cs)
+			return
+		}
+		c.Cover("purity.roundtrip-on-used-notation")
 	}
 	c.Cover("purity")
 	c.Distinct(core.HashStr(strings.Join(hist, "|")))
